@@ -192,6 +192,12 @@ func runDefault(o *Out, spec *Spec, r *Ref, m *MethodSpec) {
 			}
 			sf, ok := SS.FieldByName(tf.Name)
 			if !ok {
+				if m.Flags.IgnoreMissing && overlay {
+					// a field without source is left unassigned: it keeps FUNC's value
+					if ok, p := Equal(gf, stf); !ok {
+						bad("default_ignored_field", fmt.Sprintf("field %s has no source (ignoreMissing) and must keep FUNC's value, differs at %s", tf.Name, p))
+					}
+				}
 				continue
 			}
 			sv := field(sbase, sf.Index[0])
